@@ -98,6 +98,108 @@ mod verif_c01 {
         kani::cover!(true);
     }
 
+    // The text Base64Display renders for a concrete value: standard alphabet ('+' and '/'), padded. A serializer that records
+    // what collect_str displays by actually formatting it into a fixed buffer (concrete bytes only).
+    pub struct Render;
+    pub static mut RBUF: [u8; 8] = [0; 8];
+    pub static mut RLEN: usize = 0;
+    struct W;
+    impl std::fmt::Write for W {
+        fn write_str(&mut self, s: &str) -> std::fmt::Result {
+            let b = s.as_bytes();
+            let mut i = 0;
+            while i < b.len() {
+                unsafe {
+                    if RLEN < 8 {
+                        RBUF[RLEN] = b[i];
+                    }
+                    RLEN += 1;
+                }
+                i += 1;
+            }
+            Ok(())
+        }
+    }
+    type ImpR = serde::ser::Impossible<(), crate::ser::verif_c01::E>;
+    impl serde::Serializer for Render {
+        type Ok = ();
+        type Error = crate::ser::verif_c01::E;
+        type SerializeSeq = ImpR;
+        type SerializeTuple = ImpR;
+        type SerializeTupleStruct = ImpR;
+        type SerializeTupleVariant = ImpR;
+        type SerializeMap = ImpR;
+        type SerializeStruct = ImpR;
+        type SerializeStructVariant = ImpR;
+        fn collect_str<T: ?Sized + std::fmt::Display>(self, v: &T) -> Result<(), Self::Error> {
+            unsafe { RLEN = 0 };
+            let mut w = W;
+            let r = std::fmt::Write::write_fmt(&mut w, format_args!("{}", v));
+            if r.is_ok() { Ok(()) } else { Err(crate::ser::verif_c01::E) }
+        }
+        fn serialize_str(self, v: &str) -> Result<(), Self::Error> {
+            unsafe { RLEN = 0 };
+            let mut w = W;
+            let _ = std::fmt::Write::write_str(&mut w, v);
+            Ok(())
+        }
+        fn serialize_bool(self, _: bool) -> Result<(), Self::Error> { Err(crate::ser::verif_c01::E) }
+        fn serialize_i8(self, _: i8) -> Result<(), Self::Error> { Err(crate::ser::verif_c01::E) }
+        fn serialize_i16(self, _: i16) -> Result<(), Self::Error> { Err(crate::ser::verif_c01::E) }
+        fn serialize_i32(self, _: i32) -> Result<(), Self::Error> { Err(crate::ser::verif_c01::E) }
+        fn serialize_i64(self, _: i64) -> Result<(), Self::Error> { Err(crate::ser::verif_c01::E) }
+        fn serialize_u8(self, _: u8) -> Result<(), Self::Error> { Err(crate::ser::verif_c01::E) }
+        fn serialize_u16(self, _: u16) -> Result<(), Self::Error> { Err(crate::ser::verif_c01::E) }
+        fn serialize_u32(self, _: u32) -> Result<(), Self::Error> { Err(crate::ser::verif_c01::E) }
+        fn serialize_u64(self, _: u64) -> Result<(), Self::Error> { Err(crate::ser::verif_c01::E) }
+        fn serialize_f32(self, _: f32) -> Result<(), Self::Error> { Err(crate::ser::verif_c01::E) }
+        fn serialize_f64(self, _: f64) -> Result<(), Self::Error> { Err(crate::ser::verif_c01::E) }
+        fn serialize_char(self, _: char) -> Result<(), Self::Error> { Err(crate::ser::verif_c01::E) }
+        fn serialize_bytes(self, _: &[u8]) -> Result<(), Self::Error> { Err(crate::ser::verif_c01::E) }
+        fn serialize_none(self) -> Result<(), Self::Error> { Err(crate::ser::verif_c01::E) }
+        fn serialize_some<T: ?Sized + serde::Serialize>(self, _: &T) -> Result<(), Self::Error> { Err(crate::ser::verif_c01::E) }
+        fn serialize_unit(self) -> Result<(), Self::Error> { Err(crate::ser::verif_c01::E) }
+        fn serialize_unit_struct(self, _: &'static str) -> Result<(), Self::Error> { Err(crate::ser::verif_c01::E) }
+        fn serialize_unit_variant(self, _: &'static str, _: u32, _: &'static str) -> Result<(), Self::Error> { Err(crate::ser::verif_c01::E) }
+        fn serialize_newtype_struct<T: ?Sized + serde::Serialize>(self, _: &'static str, _: &T) -> Result<(), Self::Error> { Err(crate::ser::verif_c01::E) }
+        fn serialize_newtype_variant<T: ?Sized + serde::Serialize>(self, _: &'static str, _: u32, _: &'static str, _: &T) -> Result<(), Self::Error> { Err(crate::ser::verif_c01::E) }
+        fn serialize_seq(self, _: Option<usize>) -> Result<ImpR, Self::Error> { Err(crate::ser::verif_c01::E) }
+        fn serialize_tuple(self, _: usize) -> Result<ImpR, Self::Error> { Err(crate::ser::verif_c01::E) }
+        fn serialize_tuple_struct(self, _: &'static str, _: usize) -> Result<ImpR, Self::Error> { Err(crate::ser::verif_c01::E) }
+        fn serialize_tuple_variant(self, _: &'static str, _: u32, _: &'static str, _: usize) -> Result<ImpR, Self::Error> { Err(crate::ser::verif_c01::E) }
+        fn serialize_map(self, _: Option<usize>) -> Result<ImpR, Self::Error> { Err(crate::ser::verif_c01::E) }
+        fn serialize_struct(self, _: &'static str, _: usize) -> Result<ImpR, Self::Error> { Err(crate::ser::verif_c01::E) }
+        fn serialize_struct_variant(self, _: &'static str, _: u32, _: &'static str, _: usize) -> Result<ImpR, Self::Error> { Err(crate::ser::verif_c01::E) }
+    }
+    fn rendered_is(lit: &[u8]) -> bool {
+        unsafe {
+            if RLEN != lit.len() {
+                return false;
+            }
+            let mut i = 0;
+            while i < lit.len() && i < 8 {
+                if RBUF[i] != lit[i] {
+                    return false;
+                }
+                i += 1;
+            }
+            true
+        }
+    }
+
+    #[kani::proof]
+    #[kani::unwind(12)]
+    fn bytes_render_standard_padded_base64() {
+        // [0xfb, 0xff] is "+/8=" in the standard alphabet with padding ("-_8" in the URL-safe one)
+        assert!(<ValueBehavior as Behavior>::serialize_bytes(Render, &[0xfb, 0xff]).is_ok());
+        assert!(rendered_is(b"+/8="));
+        assert!(<KeyBehavior as Behavior>::serialize_bytes(Render, &[0xfb, 0xff]).is_ok());
+        assert!(rendered_is(b"+/8="));
+        assert!(<ValueBehavior as Behavior>::serialize_bytes(Render, &[1]).is_ok());
+        assert!(rendered_is(b"AQ=="));
+        kani::cover!(true);
+    }
+
     // JSON is human readable on both sides, Smile is not: serializer and deserializer must agree, because types such
     // as uuid pick their representation from this flag
     #[kani::proof]
